@@ -6,6 +6,8 @@ CONSTANTS
   GenKinds = {"bool","int","i32","i64","s32","s64","uint","u32","u64","x32","x64","flt","dbl","str","byt","arr","arr7","arr15","arr16","m1","m2","m3","m4"}
   FixPresence = TRUE
   FixEmptyMap = TRUE
+  RepTagged = TRUE
+  FixRepTagged = TRUE
   Emit = TRUE
 CONSTRAINT EmitVector
 CONSTRAINT EmitLibrary
